@@ -87,13 +87,19 @@ def convolve_model_dir_monochromatic(model_dir, overwrite=False, max_ram=8,
     # (wavelengths array is sorted in reverse order)
     # (a limit given in another unit that coincides with a tabulated
     # wavelength can end up one rounding error away from it once converted,
-    # so it is moved back onto it)
+    # so it is moved back onto it; a limit held in single precision, e.g.
+    # taken from the wavelength column of a file, is converted in double
+    # precision and is only known to single precision)
     increasing = wavelengths[::-1]
     limits = []
     for limit in (wav_max, wav_min):
         if isinstance(limit, u.Quantity) and np.isfinite(limit.value):
+            tolerance = 1.e-14
+            if limit.dtype.kind == 'f' and limit.dtype.itemsize < 8:
+                tolerance = 4. * np.finfo(limit.dtype).eps
+                limit = limit.astype(float)
             value = limit.to(wavelengths.unit).value
-            close = np.abs(increasing.value - value) <= 1.e-14 * np.abs(value)
+            close = np.abs(increasing.value.astype(float) - value) <= tolerance * np.abs(value)
             if np.any(close):
                 limit = increasing[close][0]
         limits.append(limit)
